@@ -45,7 +45,8 @@ def run(ck, progs):
     ck.rule("C08.8", "the control-message broadcast (GVT start, termination) reaches every rank, and one worker is started per thread id and every worker joined: evaluated over the loop indices for 1..8 ranks / threads")
     ck.rule("C08.9", "after a message count the shares of total_sent[] zeroed by threads 0..t-1 cover the entries of ranks 0..n-1 (a stale "
                      "entry makes a rank wait for messages it already received and the round never ends): evaluated for 1..8 ranks x threads")
-    ck.rule("C08.11", "every rank sends its GVT_DONE notice to the one rank that opens GVT rounds (which waits for one notice per rank before "
+    ck.rule("C08.12", "a GVT round ends: the node-level bookkeeping balances (see C04.11), so no rank waits for messages or threads that never come")
+    ck.rule("C08.11", "exactly one thread of one rank opens GVT rounds, only when every rank acknowledged the previous round, and every rank sends its GVT_DONE notice to that rank (which waits for one notice per rank before "
                       "the next round; otherwise no further GVT is computed and termination is never detected)")
     ck.rule("C08.10", "no rank is left without a worker thread: lp_global_init, evaluated for 1..12 LPs x 1..8 ranks (ranks > LPs included), "
                       "either keeps >= 1 thread or refuses to start (a rank with no thread never joins a GVT reduction and all others wait for it)")
@@ -53,6 +54,7 @@ def run(ck, progs):
         rules_cover.check_broadcast(ck, P, "C08.8")
         rules_cover.check_rank_has_worker(ck, P, "C08.10")
         rules_gvt.check_round_completion_notice(ck, P, "C08.11")
+        rules_gvt.check_node_protocol(ck, P, "C08.12")
         rules_cover.check_partition_clear(ck, P, "C08.9")
         rules_cover.check_spawn_join(ck, P, "C08.8")
         _after_node_barrier(ck, P, cfg)
